@@ -25,7 +25,8 @@ class Ent:
 
 
 class VFS:
-    def __init__(self, tree):
+    def __init__(self, tree, lazy=False):
+        self.lazy = lazy         # listdir returns an iterator whose errors surface at the first next() (the declared type is Iterator[DirEntry])
         self.tree = dict(tree)   # path -> (ino, mtime, isdir)
         self.calls = 0
         self.fail_at = None      # (call index, errno)
@@ -46,6 +47,14 @@ class VFS:
         return St(*self.tree[p])
 
     def listdir(self, p):
+        if self.lazy:
+            return self._lazy_listdir(p)
+        return self._listdir(p)
+
+    def _lazy_listdir(self, p):
+        yield from self._listdir(p)
+
+    def _listdir(self, p):
         self._maybe_fail("listdir", p)
         if p not in self.tree:
             raise FileNotFoundError(errno.ENOENT, "gone", p)
@@ -145,16 +154,16 @@ def trees(names, inos):
     return out
 
 
-def fault_sweep(tree, recursive):
+def fault_sweep(tree, recursive, lazy=False):
     """a failure at every call position of one walk"""
     pr = []
-    base = VFS(tree)
+    base = VFS(tree, lazy)
     DirectorySnapshot(ROOT, recursive=recursive, stat=base.stat, listdir=base.listdir)
     n = base.calls
     full = set(visible(tree, recursive))
     for pos in range(2, n + 1):     # position 1 is stat(root): that one is 'root gone'
         for e in (errno.ENOENT, errno.ENOTDIR, errno.EACCES):
-            v = VFS(tree)
+            v = VFS(tree, lazy)
             v.fail_at = (pos, e)
             what, where = base.log[pos - 1]
             try:
@@ -206,7 +215,7 @@ def main():
         if c["kind"] == "poll":
             pr = check_poll({k: tuple(v) for k, v in c["a"].items()}, {k: tuple(v) for k, v in c["b"].items()}, c["recursive"])
         elif c["kind"] == "fault":
-            pr = fault_sweep({k: tuple(v) for k, v in c["tree"].items()}, c["recursive"])
+            pr = fault_sweep({k: tuple(v) for k, v in c["tree"].items()}, c["recursive"], c.get("lazy", False))
         else:
             pr = root_gone()
         replay_result(bool(pr), pr[:2])
@@ -223,10 +232,11 @@ def main():
                 bat.fail("C10.poll-diff", pr[0], {"kind": "poll", "a": a, "b": b2, "recursive": rec, "problems": pr[:2]}, "PollingEmitter.queue_events")
     for t in ts[:: (7 if TIER == "quick" else 1)]:
         for rec in (True, False):
-            bat.case(hash(("fault", tuple(sorted(t.items())), rec)))
-            pr = fault_sweep(t, rec)
-            if pr:
-                bat.fail("C10.tolerant-walk", pr[0], {"kind": "fault", "tree": t, "recursive": rec, "problems": pr[:2]}, "DirectorySnapshot.walk")
+            for lazy in (False, True):
+                bat.case(hash(("fault", tuple(sorted(t.items())), rec, lazy)))
+                pr = fault_sweep(t, rec, lazy)
+                if pr:
+                    bat.fail("C10.tolerant-walk" + ("(lazy listdir iterator)" if lazy else ""), pr[0], {"kind": "fault", "tree": t, "recursive": rec, "lazy": lazy, "problems": pr[:2]}, "DirectorySnapshot.walk")
     bat.case("root-gone")
     pr = root_gone()
     if pr:
